@@ -8,6 +8,10 @@ Import ListNotations.
 Require Import RV.Lib.PyStr RV.Model.Path.
 Open Scope N_scope.
 
+(* authenticated.Rights.__init__: self._verify_user = self.configuration.get("auth", "type") != "none"
+   (owner_only and owner_write inherit it) *)
+Definition verify_user (auth_type : pystr) : bool := negb (eqs auth_type (str "none")).
+
 (* `if self._verify_user and not user: return ""` *)
 Definition anonymous_denied (verify : bool) (u : pystr) : bool := verify && negb (nonempty u).
 
